@@ -428,25 +428,64 @@ Proof.
   rewrite Nat.eqb_refl. apply Nat.eqb_neq in H. rewrite H. reflexivity.
 Qed.
 
-(* every mismatching dimension, of the tensor and of the shift argument *)
-Theorem reject_D_apply_dims m kk kd :
-  m <> kd -> D_apply_ok (Some m) kk kd = Reject ValueError.
-Proof. intros H. unfold D_apply_ok, differs. apply Nat.eqb_neq in H. rewrite H. reflexivity. Qed.
-Theorem reject_D_apply_k_dims m j kd :
-  j <> kd -> D_apply_ok m (Some j) kd = Reject ValueError.
+Lemma differs_neq j kd : j <> kd -> differs (Some j) kd = true.
+Proof. intros H. unfold differs. apply Nat.eqb_neq in H. now rewrite H. Qed.
+Lemma differs_eq j : differs (Some j) j = false.
+Proof. unfold differs. now rewrite Nat.eqb_refl. Qed.
+
+(* a tensor of lower dimension than the state's wavenumbers: refused, whatever the shift argument *)
+Theorem reject_D_apply_dims m kk s :
+  (m < Nat.min s 3)%nat -> D_apply_ok (Some m) kk s = Reject ValueError.
 Proof.
-  intros H. unfold D_apply_ok. assert (differs (Some j) kd = true) as ->.
-  { unfold differs. apply Nat.eqb_neq in H. now rewrite H. }
-  destruct (differs m kd); reflexivity.
+  intros H. unfold D_apply_ok. rewrite differs_neq; [reflexivity|].
+  unfold D_kdim, dim_or_1. destruct kk; lia.
 Qed.
-Theorem accept_D_apply_matching kd :
-  D_apply_ok (Some kd) (Some kd) kd = Accept /\ D_apply_ok (Some kd) None kd = Accept /\
-  D_apply_ok None (Some kd) kd = Accept /\ D_apply_ok None None kd = Accept.
-Proof. unfold D_apply_ok, differs. rewrite Nat.eqb_refl. repeat split; reflexivity. Qed.
-Theorem D_apply_accept_iff m kk kd :
-  D_apply_ok m kk kd = Accept <-> (forall j, m = Some j -> j = kd) /\ (forall j, kk = Some j -> j = kd).
+(* a shift argument of lower dimension than the state's wavenumbers: refused, whatever the tensor *)
+Theorem reject_D_apply_k_dims m j s :
+  (j < Nat.min s 3)%nat -> D_apply_ok m (Some j) s = Reject ValueError.
 Proof.
-  unfold D_apply_ok, differs. split.
+  intros H. unfold D_apply_ok.
+  assert (differs (Some j) (D_kdim m (Some j) s) = true) as ->.
+  { apply differs_neq. unfold D_kdim, dim_or_1. destruct m; lia. }
+  destruct (differs m _); reflexivity.
+Qed.
+(* more than 3 components can never match sm.k *)
+Theorem reject_D_apply_above_3 m kk s : (3 < m)%nat -> D_apply_ok (Some m) kk s = Reject ValueError.
+Proof.
+  intros H. unfold D_apply_ok. rewrite differs_neq; [reflexivity|]. unfold D_kdim. lia.
+Qed.
+(* tensor and shift argument of different dimensions (also refused by the constructor) *)
+Theorem reject_D_apply_D_k_differ m j s : m <> j -> D_apply_ok (Some m) (Some j) s = Reject ValueError.
+Proof.
+  intros H. unfold D_apply_ok.
+  destruct (Nat.eq_dec m (D_kdim (Some m) (Some j) s)) as [E|E].
+  - rewrite <- E at 1. rewrite differs_eq. cbn [guard andv]. rewrite differs_neq; [reflexivity|]. congruence.
+  - rewrite (differs_neq _ _ E). reflexivity.
+Qed.
+(* a higher-dimensional argument (up to 3) upgrades the state's coordinates and is accepted *)
+Theorem accept_D_apply_higher_upgrades m s :
+  (s <= m)%nat -> (1 <= m <= 3)%nat ->
+  D_apply_ok (Some m) None s = Accept /\ D_apply_ok None (Some m) s = Accept /\
+  D_apply_ok (Some m) (Some m) s = Accept.
+Proof.
+  intros H1 H2.
+  assert (E : forall a b, (a = Some m \/ a = None) -> (b = Some m \/ b = None) -> (a = Some m \/ b = Some m) ->
+              D_kdim a b s = m).
+  { intros a b [-> | ->] [-> | ->] Hab; unfold D_kdim, dim_or_1; try lia. destruct Hab; discriminate. }
+  unfold D_apply_ok. rewrite !E by auto. rewrite differs_eq. repeat split; reflexivity.
+Qed.
+Theorem accept_D_apply_matching s :
+  (1 <= s)%nat -> D_apply_ok None None s = Accept /\ D_apply_ok (Some (Nat.min s 3)) None s = Accept.
+Proof.
+  intros H. split; [reflexivity|]. unfold D_apply_ok.
+  assert (D_kdim (Some (Nat.min s 3)) None s = Nat.min s 3) as -> by (unfold D_kdim, dim_or_1; lia).
+  rewrite differs_eq. reflexivity.
+Qed.
+Theorem D_apply_accept_iff m kk s :
+  D_apply_ok m kk s = Accept <->
+  (forall j, m = Some j -> j = D_kdim m kk s) /\ (forall j, kk = Some j -> j = D_kdim m kk s).
+Proof.
+  unfold D_apply_ok. generalize (D_kdim m kk s) as kd. intros kd. unfold differs. split.
   - intros H. split; intros j ->; destruct (Nat.eqb_spec j kd); auto; try discriminate.
     destruct m as [i|]; [destruct (i =? kd)%nat|]; discriminate.
   - intros [H1 H2]. destruct m as [i|]; [rewrite (H1 i eq_refl), Nat.eqb_refl|];
@@ -465,9 +504,9 @@ Proof.
 Qed.
 
 (* an unknown parameter name at any position of order1=[...] *)
-Theorem reject_unknown_parameter_list q params params2 pre x post a2 :
+Theorem reject_unknown_parameter_list params params2 pre x post a2 :
   smem x params = false ->
-  parse_partials_ok q params params2 (O1List (pre ++ x :: post)) a2 = Reject ValueError.
+  parse_partials_ok params params2 (O1List (pre ++ x :: post)) a2 = Reject ValueError.
 Proof.
   intros Hx. unfold parse_partials_ok.
   assert (F : o1_falsy (O1List (pre ++ x :: post)) = false) by (destruct pre; reflexivity).
@@ -476,15 +515,15 @@ Proof.
     [reflexivity | | left; reflexivity | exact Hx].
   rewrite map_app. reflexivity.
 Qed.
-Theorem reject_unknown_parameter_str q params params2 x a2 :
-  smem x params = false -> parse_partials_ok q params params2 (O1Str x) a2 = Reject ValueError.
+Theorem reject_unknown_parameter_str params params2 x a2 :
+  smem x params = false -> parse_partials_ok params params2 (O1Str x) a2 = Reject ValueError.
 Proof.
   intros Hx. unfold parse_partials_ok. cbn [o1_falsy norm_o1 existsb snd]. rewrite Hx. reflexivity.
 Qed.
 (* an alias {variable: unknown parameter} at any position *)
-Theorem reject_unknown_parameter_alias q params params2 pre v x post a2 :
+Theorem reject_unknown_parameter_alias params params2 pre v x post a2 :
   smem x params = false ->
-  parse_partials_ok q params params2 (O1Alias (pre ++ (v, x) :: post)) a2 = Reject ValueError.
+  parse_partials_ok params params2 (O1Alias (pre ++ (v, x) :: post)) a2 = Reject ValueError.
 Proof.
   intros Hx. unfold parse_partials_ok.
   assert (F : o1_falsy (O1Alias (pre ++ (v, x) :: post)) = false) by (destruct pre; reflexivity).
@@ -495,9 +534,9 @@ Proof.
   rewrite map_app. reflexivity.
 Qed.
 (* coefficient form {variable: {parameter: c}}: unknown parameter in any variable's map *)
-Theorem reject_unknown_parameter_coef q params params2 pre v ps post x a2 :
+Theorem reject_unknown_parameter_coef params params2 pre v ps post x a2 :
   In x ps -> smem x params = false ->
-  parse_partials_ok q params params2 (O1Coef (pre ++ (v, ps) :: post)) a2 = Reject ValueError.
+  parse_partials_ok params params2 (O1Coef (pre ++ (v, ps) :: post)) a2 = Reject ValueError.
 Proof.
   intros Hin Hx. unfold parse_partials_ok.
   assert (F : o1_falsy (O1Coef (pre ++ (v, ps) :: post)) = false) by (destruct pre; reflexivity).
@@ -517,12 +556,12 @@ Qed.
 Lemma existsb_map' {A B} (f : B -> bool) (g : A -> B) l : existsb f (map g l) = existsb (fun x => f (g x)) l.
 Proof. induction l as [|x l IH]; [reflexivity|]. simpl. now rewrite IH. Qed.
 
-Lemma parse_o2pairs_untouched q params params2 a1 l o1 :
+Lemma parse_o2pairs_untouched params params2 a1 l o1 :
   o1_falsy a1 = false -> norm_o1 params a1 = Some o1 ->
   existsb (fun vc : string * list string => existsb (fun p => negb (smem p params)) (snd vc)) o1 = false ->
   o1 <> [] -> o2_falsy (O2Pairs l) = false ->
   existsb (fun p => negb (pair_touches (map fst o1) p)) l = true ->
-  parse_partials_ok q params params2 a1 (O2Pairs l) = Reject ValueError.
+  parse_partials_ok params params2 a1 (O2Pairs l) = Reject ValueError.
 Proof.
   intros H1 H2 H3 H4 H5 H6. unfold parse_partials_ok. rewrite H1, H2, H3, H5.
   destruct o1 as [|vc o1]; [congruence|].
@@ -531,12 +570,12 @@ Proof.
 Qed.
 
 (* order1=True and a pair of two unknown names at any position of order2=[pairs] *)
-Theorem reject_unknown_pair q p0 params params2 pre a b post :
+Theorem reject_unknown_pair p0 params params2 pre a b post :
   smem a (p0 :: params) = false -> smem b (p0 :: params) = false ->
-  parse_partials_ok q (p0 :: params) params2 O1True (O2Pairs (pre ++ (a, b) :: post)) = Reject ValueError.
+  parse_partials_ok (p0 :: params) params2 O1True (O2Pairs (pre ++ (a, b) :: post)) = Reject ValueError.
 Proof.
   intros Ha Hb.
-  apply (parse_o2pairs_untouched q (p0 :: params) params2 O1True _ (map (fun p => (p, [p])) (p0 :: params))).
+  apply (parse_o2pairs_untouched (p0 :: params) params2 O1True _ (map (fun p => (p, [p])) (p0 :: params))).
   - reflexivity.
   - reflexivity.
   - apply known_params_ok.
@@ -546,8 +585,65 @@ Proof.
     unfold pair_touches. cbn [fst snd]. rewrite Ha, Hb. reflexivity.
 Qed.
 
-Theorem accept_known_parameters q p0 params params2 :
-  parse_partials_ok q (p0 :: params) params2 O1True O2False = Accept.
+Lemma existsb_none {A} (f : A -> bool) l : (forall x, In x l -> f x = false) -> existsb f l = false.
+Proof.
+  intros H. destruct (existsb f l) eqn:E; [|reflexivity].
+  apply existsb_exists in E. destruct E as [x [Hin Hx]]. rewrite (H x Hin) in Hx. discriminate.
+Qed.
+
+(* order2 given as a list of names: every pair of names is requested *)
+Lemma strlist_pairs_in l pc :
+  In pc (flat_map (fun a : string => map (fun b : string => ((a, b), @nil string)) l) l) ->
+  In (fst (fst pc)) l /\ In (snd (fst pc)) l /\ snd pc = [].
+Proof.
+  intros H. apply in_flat_map in H. destruct H as [a [Ha H]].
+  apply in_map_iff in H. destruct H as [b [<- Hb]]. auto.
+Qed.
+Theorem accept_order2_name_list p0 params params2 l :
+  (forall x, In x l -> smem x (p0 :: params) = true) ->
+  parse_partials_ok (p0 :: params) params2 O1True (O2StrList l) = Accept.
+Proof.
+  intros Hl. unfold parse_partials_ok. cbn [o1_falsy norm_o1]. rewrite known_params_ok. cbn [guard andv].
+  destruct (o2_falsy (O2StrList l)); [reflexivity|].
+  cbn [map fst guard andv].
+  assert (M : map fst (map (fun p : string => (p, [p])) params) = params).
+  { rewrite map_map. simpl. now rewrite map_id. }
+  rewrite M.
+  set (pairs := flat_map (fun a : string => map (fun b : string => ((a, b), @nil string)) l) l).
+  assert (E1 : existsb (fun pc : string * string * list string => negb (pair_touches (p0 :: params) (fst pc))) pairs = false).
+  { apply existsb_none. intros pc Hin. apply strlist_pairs_in in Hin. destruct Hin as [Ha _].
+    unfold pair_touches. now rewrite (Hl _ Ha). }
+  assert (E2 : existsb (fun pc : string * string * list string => negb (pair_inside (p0 :: params) (fst pc))
+                 && match snd pc with [] => false | _ => true end) pairs = false).
+  { apply existsb_none. intros pc Hin. apply strlist_pairs_in in Hin. destruct Hin as [_ [_ Hn]].
+    rewrite Hn. apply andb_false_r. }
+  assert (E3 : existsb (fun pc : string * string * list string => existsb (fun p => negb (smem p (p0 :: params))) (snd pc)) pairs = false).
+  { apply existsb_none. intros pc Hin. apply strlist_pairs_in in Hin. destruct Hin as [_ [_ Hn]].
+    now rewrite Hn. }
+  rewrite E1, E2, E3. reflexivity.
+Qed.
+(* ... and a name that is no order1 variable, at any position of that list, is refused *)
+Theorem reject_unknown_name_in_order2_list p0 params params2 pre x post :
+  smem x (p0 :: params) = false ->
+  parse_partials_ok (p0 :: params) params2 O1True (O2StrList (pre ++ x :: post)) = Reject ValueError.
+Proof.
+  intros Hx. unfold parse_partials_ok. cbn [o1_falsy norm_o1]. rewrite known_params_ok. cbn [guard andv].
+  assert (F : o2_falsy (O2StrList (pre ++ x :: post)) = false) by (destruct pre; reflexivity).
+  rewrite F. cbn [map fst guard andv].
+  assert (M : map fst (map (fun p : string => (p, [p])) params) = params).
+  { rewrite map_map. simpl. now rewrite map_id. }
+  rewrite M.
+  set (l := pre ++ x :: post).
+  assert (E1 : existsb (fun pc : string * string * list string => negb (pair_touches (p0 :: params) (fst pc)))
+                 (flat_map (fun a : string => map (fun b : string => ((a, b), @nil string)) l) l) = true).
+  { apply existsb_exists. exists ((x, x), []). split.
+    - apply in_flat_map. exists x. split; [apply in_elt|]. apply in_map_iff. exists x. split; [reflexivity | apply in_elt].
+    - unfold pair_touches. cbn [fst snd]. rewrite Hx. reflexivity. }
+  rewrite E1. reflexivity.
+Qed.
+
+Theorem accept_known_parameters p0 params params2 :
+  parse_partials_ok (p0 :: params) params2 O1True O2False = Accept.
 Proof. unfold parse_partials_ok. cbn [o1_falsy norm_o1]. rewrite known_params_ok. reflexivity. Qed.
 
 (* ------------------------------------------------------------------ 13. sequences *)
